@@ -1,26 +1,43 @@
 -------------------------- MODULE EmfHistoryReplay --------------------------
 (***************************************************************************)
-(* Behaviour generator for EmfHistory (C14): every sequence of entry kinds *)
-(* of length Depth (exhaustive BFS over the history variable, or long      *)
-(* `-simulate` walks) for every configuration, printed as one JSON line    *)
-(* together with the decision the model predicts for each position.  The   *)
-(* harness (emfh) formats the sequence with ONE long-lived real formatter  *)
-(* and compares every position with a freshly built one.                   *)
-(* Configurations in Deep are enumerated to Depth, the others to Shallow.  *)
+(* Behaviour generator for EmfHistory (C14): sequences of calls            *)
+(* (entry kind, writer fault) for every configuration, printed as one JSON *)
+(* line together with the decision the model predicts for each position.   *)
+(* The harness (emfh) formats the sequence with ONE long-lived real        *)
+(* formatter and compares every position with a freshly built one.         *)
+(*                                                                         *)
+(*   Depth      length of the sequences (exhaustive BFS over the history   *)
+(*              variable), printed at full length only                     *)
+(*   Configs    the configurations enumerated                              *)
+(*   FaultAt    positions (0-based) at which the writer may fail; at the   *)
+(*              others it never fails.  Pairs: {0} = (kind x fault) ->     *)
+(*              kind; triples: {1} = kind -> (kind x fault) -> kind        *)
+(*   FaultMod   > 0: walks (`-simulate`): the writer may fail at every     *)
+(*              position p with p % FaultMod = 1                           *)
+(*   NoHuge     configurations whose sequences leave out the               *)
+(*              multi-megabyte kind (it is the only expensive one)         *)
 (***************************************************************************)
 EXTENDS EmfHistory, Json
 
-CONSTANTS Depth, Shallow, Deep
+CONSTANTS Depth, Configs, FaultAt, FaultMod, NoHuge
 VARIABLES hist, cn
 
-D == IF cn \in Deep THEN Depth ELSE Shallow
-RInit == /\ cn \in ConfigNames /\ c = Cfg[cn] /\ f = F0 /\ hist = <<>>
-RNext == Len(hist) < D /\ \E k \in KindNames : Format(k) /\ hist' = Append(hist, k) /\ UNCHANGED cn
+MayFault == IF FaultMod > 0 THEN Len(hist) % FaultMod = 1 ELSE Len(hist) \in FaultAt
+RInit == /\ cn \in Configs /\ c = Cfg[cn] /\ f = F0 /\ hist = <<>>
+RNext == /\ Len(hist) < Depth
+         /\ \E k \in KindNames, w \in Faults :
+              /\ w # "none" => MayFault
+              /\ k = "huge" => cn \notin NoHuge
+              /\ Format(k, w)
+              /\ hist' = Append(hist, <<k, w>>)
+              /\ UNCHANGED cn
 RSpec == RInit /\ [][RNext]_<<vars, hist, cn>>
 
-Bound == Len(hist) <= D
-Emit == (Len(hist) = D) =>
-          PrintT(<<"REPLAY", ToJson([cfg |-> cn, kinds |-> hist,
-                                     pred |-> [i \in 1..Len(hist) |-> Pred(cn, hist[i])],
-                                     lines |-> [i \in 1..Len(hist) |-> PredLines(cn, hist[i])]])>>)
+Bound == Len(hist) <= Depth
+Emit == (Len(hist) = Depth) =>
+          PrintT(<<"REPLAY", ToJson([cfg |-> cn,
+                                     kinds |-> [i \in 1..Len(hist) |-> hist[i][1]],
+                                     faults |-> [i \in 1..Len(hist) |-> hist[i][2]],
+                                     pred |-> [i \in 1..Len(hist) |-> Pred(cn, hist[i][1], hist[i][2])],
+                                     lines |-> [i \in 1..Len(hist) |-> PredLines(cn, hist[i][1], hist[i][2])]])>>)
 =============================================================================
